@@ -22,24 +22,24 @@ CLAIMED["C20"] = dict(
 
 CLAIMED["C10"] = dict(
     level="model_checking", design="§4 C10",
-    text="Real encode()/Relocation.apply() code executed on symbolic operands: (1) wrap_negative/inrange primitives for every value; (2) every relocation type of riscv, rvc, arm, thumb, x86_64 + generic data relocations applied with symbolic symbol address, field address (all 32/48/64-bit values) and addend: error, or the field decoded per the ISA manual designates exactly S+A(-P) and no other bit changes; (3) every instruction class with an integer operand (quick: riscv, rvc, arm, thumb; thorough: all 12 ISAs): over all pairs of operand values in +-2**40 accepted by encode(), encodings differ (no truncation/aliasing) and the operand is not rewritten.",
+    text="Real encode()/Relocation.apply() code executed on symbolic operands: (1) wrap_negative/inrange primitives for every value; (2) every claimed relocation type of riscv, rvc, arm, thumb, x86_64, avr, msp430, mcs6500, or1k, mips, microblaze, xtensa, m68k + generic data relocations applied with symbolic symbol address, field address (all 32/48/64-bit values) and addend: error, or the field decoded per the ISA manual designates exactly S+A(-P) and no other bit changes; (3) every instruction class with an integer operand (quick: riscv, rvc, arm, thumb; thorough: all 12 ISAs): over all pairs of operand values in +-2**40 accepted by encode(), encodings differ (no truncation/aliasing) and the operand is not rewritten.",
     note="Trusted: z3/cvc5, ref/relocspec.py (field layouts from the ISA manuals), the proxy engine (every path cross-checked concretely). Layer 3 is spec-free (injectivity), so a wrong-but-injective field layout is C08's business. Genuine defects of the unchanged tree are listed per call site in known_findings.json (regions proven tight by the solver: a violation outside them is still reported). Not claimed: operands through the assembler text path; relocation types without a relocspec entry.",
     technique=TECH)
 
 CLAIMED["C11"] = dict(
     level="model_checking", design="§4 C11",
-    text="The REAL linker (link/merge/layout/do_relocations/get_symbol_id_value) runs on an object holding one relocated instruction (base encoding from the real instruction class) and its target symbol, under a layout whose memory base addresses, symbol offset, addend and surrounding bytes are symbolic; for every relocation type of riscv, rvc, arm, thumb, x86_64 (+ generic data relocations), in two placements: the link fails, or the symbol table value is section address + offset, the field decoded per the ISA manual designates exactly S+A (or S+A-P), no other bit or byte changes; RISC-V hi/lo pairs are checked jointly.",
+    text="The REAL linker (link/merge/layout/do_relocations/get_symbol_id_value) runs on an object holding one relocated instruction (base encoding from the real instruction class) and its target symbol, under a layout whose memory base addresses, symbol offset, addend and surrounding bytes are symbolic; for every claimed relocation type of riscv, rvc, arm, thumb, x86_64, avr, msp430, mcs6500, or1k, mips, microblaze, xtensa, m68k (+ generic data relocations), in two placements: the link fails, or the symbol table value is section address + offset, the field decoded per the ISA manual designates exactly S+A (or S+A-P), no other bit or byte changes; RISC-V hi/lo pairs are checked jointly.",
     note="Trusted: z3/cvc5, ref/relocspec.py, the proxy engine (every path re-run concretely). Bounded: 32-bit (x86_64 47-bit) 4-aligned bases, offsets < 2**20. Known findings (signed fields accepting the unsigned upper half, thumb BL/B<c>.W range) are listed per relocation type with solver-checked tight regions. Not claimed: other ISAs, relaxable jumps (C13), multi-object placement (C12), addends ignored by the relocation class.",
     technique=TECH)
 CLAIMED["C08"] = dict(
     level="model_checking", design="§4 C08",
-    text="RISC-V only (RV32IM, Zicsr, C). Every instruction class of ppci's riscv/rvc ISA that has a syntax and an encoding is run through the real encode() (and the real relocation for pc-relative labels) with ALL operands symbolic (register numbers 0..31, CSR numbers, immediates in +-2**33); the emitted word is decoded by a decoder written from the ISA manual (ref/rv32.py). Obligation per path: rejected, or the printed mnemonic and exactly the printed operand values, for all operands in the manual's documented ranges.",
-    note="Trusted: z3, ref/rv32.py (self-validated each run: table disjointness, 76 byte strings of the repo's own assembler tests, solver proof that two independent field-slicing variants agree), the proxy engine. Genuine RVC defects are listed as known findings (3-bit register fields aliasing x4..x7, ignored rs operand, reserved encodings). Outside: the other ten ISAs (no reference decoder available), F/D extensions, selection pseudo-instructions, hi/lo relocated fields (C10/C11).",
+    text="Model checking of the real encoders of three instruction sets. RISC-V (RV32IM+Zicsr+C) and ARM A32: every instruction class of the riscv, riscv:rvc and arm ISA objects is built with fully symbolic operands (register numbers, immediates wider than any field, shift suffix and amount, register lists, label distance through the real relocation; rendered pseudo-instructions such as li are executed as a sequence) and the real encode() output must decode, via manual-derived decoders (ref/rv32.py, ref/arm32.py), to the printed mnemonic incl. condition suffix and exactly the printed operands, for all operands in the manuals' documented ranges. x86_64: the integer operand-encoding layer (REX, ModRM, SIB, disp8/disp32, immediates) of every integer instruction class x every operand constructor it accepts, with all registers, displacements and immediates symbolic, decoded by an SDM-derived decoder (ref/x86dec.py).",
+    note="Trusted: z3, the three reference decoders (self-validated on every run: table disjointness, the repo's own assembler byte strings, solver proof that independent field-slicing variants agree, llvm-mc / GNU objdump cross-checks on random words where installed - never the deciding step), the proxy engine. Known findings: RVC 3-bit register fields aliasing x4..x7, ignored rs operands, reserved encodings; x86 AH..BH with REX. Outside: the other nine ISAs, Thumb, VFP/NEON/coprocessor, SSE2/x87, F/D extensions, out-of-range operands (C10), UNPREDICTABLE combinations, hi/lo relocated fields (C10/C11).",
     technique=TECH)
 CLAIMED["C07"] = dict(
     level="model_checking", design="§4 C07",
-    text="RISC-V only. The symbolic encodings of every non-system riscv/rvc instruction class are executed by a manual-derived RV32IMC single-step semantics (ref/rv32.py) from a fully symbolic machine state. Frame: only defined_registers (as the real class declares them) change. Non-interference: a second state agreeing on used_registers, pc, sp and memory and arbitrary elsewhere yields the same defined registers, memory and next pc.",
-    note="Trusted: z3, ref/rv32.py (validated as under C08), the proxy engine. Known findings in RVC (undeclared link/sp writes, shift/andi rd not declared read, consequences of the C08 register aliasing) are listed. Outside: other ISAs, CSR/system, F/D, per-call extra_uses/clobbers. Memory is 8 periodic symbolic bytes plus a probe address (sufficient for one instruction).",
+    text="RISC-V and ARM A32. The same symbolic encodings as under C08 are executed by manual-derived single-step semantics (RV32IMC; ARM A32 with NZCV flags, shifter carry-out, PC reads as address+8, interworking PC writes) from a fully symbolic machine state. Frame: only defined_registers (as the real class declares them, plus clobbers) change. Non-interference: a second state agreeing on used_registers, pc, sp, memory (and on ARM the incoming flags) and arbitrary elsewhere yields the same defined registers, memory, next pc and (ARM) new flags.",
+    note="Trusted: z3, ref/rv32.py and ref/arm32.py (validated as under C08; integer vs z3 back ends cross-run), the proxy engine. ARM CPSR flags are implicit state (ppci declares no flag register): flag changes are outside the frame claim but must depend only on declared reads. Known findings: RVC undeclared link/sp writes and shift/andi rd reads; ARM bl/blx lr, push/pop list registers and sp not declared. Outside: other ISAs, Thumb, CSR/system, F/D, coprocessor, per-call extra_uses/clobbers, UNPREDICTABLE cases.",
     technique=TECH)
 
 TECH_ENUM = "bounded symbolic execution of the real ppci code (symx) where the only symbolic inputs are the graph/grammar-shaped ones; the code's own traversal forks on what it inspects, the solver discharges the oracle formula over everything it did not inspect; every path validated concretely"
